@@ -7,9 +7,10 @@ Driver of engine `p2p` (C20).  Op lines (see go/cmd/p2p/main.go for the harness 
 
   crc <hex|->                                   -> %08x of CRC-32/IEEE
   resp <t>                                      -> GetRespMessageType(t)
+  vmt <req> <resp> <samelog> <samefrom>         -> VerifyMessageType: true|false
   msg <typ> <opts|-> <m> <z>                    -> sum=… comp=… bc=… ver=… err=… log=… inproc=… wire=…
   cor <typ> <m> <z> <startbit> <pattern01>      -> verify=<0|1> unmarshal=<checksum|other>
-  reset | sub <id> <typ> <bc|-> <from|->  | reg <id> | unreg <id>
+  reset | sub <id> <typ> <bc|-> <from|-> [chan] | reg <id> | unreg <id>
   disp <typ> <bc|-> <from|-> <logid|-> <sum> [nostream]   -> ok:<ids> | streamnil | notreg
   dispbad <nomsg|nohdr|nodata>                  -> empty
   tick <ms>                                     -> ok
@@ -147,6 +148,15 @@ def step (s : St) (line : String) : St × String :=
     match t.toNat? with
     | some t => (s, toString (XV.Msg.getRespMessageType t))
     | none => (s, "bad-op")
+  | ["vmt", rq, rs, sameLog, sameFrom] =>
+    match rq.toNat?, rs.toNat? with
+    | some rq, some rs =>
+      let mk (t : Nat) (l f : String) : XV.Msg.Header :=
+        { version := [], logid := l.toList, sender := f.toList, bcname := [], typ := t, checksum := 0#32, errorType := 0, enableCompress := false }
+      let req := mk rq "L1" ""
+      let resp := mk rs (if sameLog == "1" then "L1" else "L2") (if sameFrom == "1" then "peerA" else "peerB")
+      (s, boolStr (XV.Msg.verifyMessageType req resp "peerA".toList))
+    | _, _ => (s, "bad-op")
   | ["msg", typ, opts, m, z] =>
     match typ.toNat?, parseOpts opts, parsePayload m, parseHex z with
     | some typ, some opts, some m, some z => (s, msgOp typ opts m z)
@@ -156,10 +166,10 @@ def step (s : St) (line : String) : St × String :=
     | some typ, some m, some z, some start, some pat => (s, corOp typ m z start pat)
     | _, _, _, _, _ => (s, "bad-op")
   | ["reset"] => (St.init, "ok")
-  | ["sub", id, typ, bc, frm] =>
+  | "sub" :: id :: typ :: bc :: frm :: rest =>
     match id.toNat?, typ.toNat? with
     | some id, some typ =>
-      if s.pool.any (·.id == id) then (s, "bad-op")
+      if s.pool.any (·.id == id) ∨ (rest != [] ∧ rest != ["chan"]) then (s, "bad-op")
       else ({ s with pool := ⟨id, typ, strOf bc, strOf frm⟩ :: s.pool }, "ok")
     | _, _ => (s, "bad-op")
   | ["reg", id] =>
